@@ -101,6 +101,8 @@ type Stats struct {
 	Naps            uint64
 	ChanOps         uint64
 	LeakedTasks     uint64
+	Selects         uint64
+	TimersFired     uint64
 	Fingerprint     uint64
 	Truncated       bool
 	Aborted         string
